@@ -57,6 +57,11 @@ example : deserializeVLQ [0xff, 0xff, 0x7f, 0x55] = (2113663, 3) := by decide
 theorem amount_roundtrip_nat (a : Nat) : decompressNat (compressNat a) = a :=
   Lemmas.decompressNat_compressNat a
 
+/-- …and compression inverts decompression: the compressed form is a bijection on ℕ, every value is the
+code of exactly one amount (no redundant or invalid encodings). -/
+theorem amount_bijection_nat (x : Nat) : compressNat (decompressNat x) = x :=
+  Lemmas.compressNat_decompressNat x
+
 /-- No `uint64` overflow up to the bound, hence the model (with wrap-around) equals the spec there. -/
 theorem amount_no_overflow (a : Nat) (h : a ≤ amountBound) : compressTxOutAmount a = compressNat a := by
   unfold compressTxOutAmount; exact Nat.mod_eq_of_lt (Lemmas.compressNat_lt a h)
